@@ -642,8 +642,8 @@ class DateType(_CassandraType):
 
     @staticmethod
     def deserialize(byts, protocol_version):
-        timestamp = int64_unpack(byts) / 1000.0
-        return util.datetime_from_timestamp(timestamp)
+        # integer milliseconds: going through float seconds loses microseconds far from 1970
+        return util.utc_datetime_from_ms_timestamp(int64_unpack(byts))
 
     @staticmethod
     def serialize(v, protocol_version):
